@@ -9,6 +9,31 @@ from . import overlay, tree as treemod
 from .tree import VERIF, WORK
 
 TARGET = os.path.join(WORK, "kani-target")
+RSS_LIMIT_KB = int(os.environ.get("VERIF_CBMC_RSS_GB", "10")) * 1024 * 1024
+
+
+def _cbmc_procs():
+    res = []
+    for d in os.listdir("/proc"):
+        if not d.isdigit():
+            continue
+        try:
+            with open("/proc/%s/comm" % d) as fh:
+                if fh.read().strip() != "cbmc":
+                    continue
+            rss = 0
+            with open("/proc/%s/status" % d) as fh:
+                for ln in fh:
+                    if ln.startswith("VmRSS:"):
+                        rss = int(ln.split()[1])
+            with open("/proc/%s/cmdline" % d) as fh:
+                cmdline = fh.read().replace("\0", " ")
+            res.append((int(d), rss, cmdline))
+        except OSError:
+            continue
+    return res
+
+
 KANI_FLAGS = ["-Z", "unstable-options", "-Z", "stubbing", "-Z", "function-contracts", "--output-format", "terse"]
 
 
@@ -73,15 +98,36 @@ def run(tree, harnesses, jobs=8, extra=None, timeout=None, log=None):
     if extra:
         cmd += extra
     t0 = time.time()
-    try:
-        p = subprocess.run(cmd, cwd=tree, env=_env(), capture_output=True, text=True,
-                           timeout=timeout or (600 + to * (1 + len(harnesses) // jobs)))
-        out = p.stdout + "\n" + p.stderr
-        rc = p.returncode
-    except subprocess.TimeoutExpired as e:
-        out = (e.stdout.decode() if isinstance(e.stdout, bytes) else (e.stdout or "")) + "\nTIMEOUT"
-        subprocess.run(["pkill", "-x", "cbmc"])
-        rc = -1
+    killed = []
+    import tempfile, threading
+    tf = tempfile.TemporaryFile(mode="w+")
+    proc = subprocess.Popen(cmd, cwd=tree, env=_env(), stdout=tf, stderr=subprocess.STDOUT, text=True)
+    deadline = t0 + (timeout or (600 + to * (1 + len(harnesses) // jobs)))
+    rc = None
+    while True:
+        try:
+            rc = proc.wait(timeout=3)
+            break
+        except subprocess.TimeoutExpired:
+            pass
+        # RSS watchdog (DESIGN 1.9): a CBMC process above the limit is killed -> that harness is UNDECIDED
+        for pid, rss, cmdline in _cbmc_procs():
+            if rss > RSS_LIMIT_KB:
+                try:
+                    os.kill(pid, 9)
+                    killed.append(cmdline)
+                except OSError:
+                    pass
+        if time.time() > deadline:
+            proc.kill()
+            subprocess.run(["pkill", "-x", "cbmc"])
+            rc = -1
+            break
+    tf.seek(0)
+    out = tf.read() + ("\nTIMEOUT" if rc == -1 else "")
+    tf.close()
+    for c in killed:
+        out += "\nRSS-WATCHDOG killed: %s" % c[-200:]
     if log:
         with open(log, "w") as fh:
             fh.write(" ".join(cmd) + "\n" + out)
